@@ -1,8 +1,8 @@
 SPECIFICATION Spec
 CONSTANTS N = 3 MaxCalls = 1
-Menu = {"json", "marshal", "bytes", "parse", "struct", "recompose", "pure"}
+Menu = {"json", "marshal", "bytes", "parse", "struct", "recompose", "pure", "hook"}
 Copies = {"json", "marshal", "bytes", "parse", "struct"}
-LockedLookup = TRUE PreRegistered = TRUE ExclusivePool = TRUE Gran = "fine"
+LockedLookup = TRUE PreRegistered = TRUE ExclusivePool = TRUE Scratch = "percall" Gran = "fine"
 INVARIANTS Exclusive BufferIsolation NoUnlockedWriteRead SequentialEquivalence
 VIEW DesignView
 CHECK_DEADLOCK FALSE
